@@ -802,6 +802,9 @@ destination for `clone_from`.  The harness builds that destination from a clone 
 `pop_max`) down to `keep` elements and pushing `xs`; the same is done here on the model. -/
 def execCrashCl (st : St) (name : String) : Pm (Except String (Option (Kind × Store Pr))) := do
   if name == "clone_swap" then return .ok (some (st.kind, st.s))
+  -- `!dr<k> clear`: a `Drop` of a stored element panics inside `map.clear()`; tables and size were reset first and the map is
+  -- emptied all the same (`Props/C10_more.lean`: the crash state IS the result of `clear`)
+  if name == "clear" then return .ok (some (st.kind, st.s.clear))
   if name != "clone_from" then throw s!"clone crash mirror: unsupported operation {name}"
   let keep ← nat
   let xs ← entries
@@ -856,8 +859,8 @@ def runLine (st : St) (lhs : List String) : Except String (St × String) :=
   | [] => .error "empty line"
   | "ref" :: rest => runLine st rest    -- `(&q).into_iter()` / `(&mut q).into_iter()`: the same iterators
   | op :: args =>
-    if (op.startsWith "!cmp" || op.startsWith "!cb" || op.startsWith "!cl") && (match args with | inner :: _ => !inner.startsWith "!" | [] => false) then
-      let isCl := op.startsWith "!cl"
+    if (op.startsWith "!cmp" || op.startsWith "!cb" || op.startsWith "!cl" || op.startsWith "!dr") && (match args with | inner :: _ => !inner.startsWith "!" | [] => false) then
+      let isCl := op.startsWith "!cl" || op.startsWith "!dr"
       let isCb := op.startsWith "!cb" || isCl     -- (for the comparison count: the model's own ticks, here none)
       match (op.drop (if op.startsWith "!cmp" then 4 else 3)).toString.toNat?, args with
       | some k, inner :: rest =>
